@@ -191,6 +191,7 @@ func c08(r *lp.Run) {
 	c08Atoms(r)
 	c08Fallback(r)
 	c08EngineAgreement(r, r.Rng.Fork(801))
+	c08ClassEdges(r)
 	c08Escapes(r)
 	c08Generated(r)
 }
